@@ -26,7 +26,7 @@ def plan(tier, seed):
 
 def thresholds(tier):
   t = {"types_built": 300, "values_checked": 5000, "layout_comparisons": 5000, "aliasing_probes": 20000,
-       "types_with_list_field": 100, "types_nested": 100, "hash_comparisons": 1000, "same_name_redeclarations": 200, "hash_after_field_update_probes": 2000}
+       "types_with_list_field": 100, "types_nested": 100, "hash_comparisons": 1000, "same_name_redeclarations": 200, "hash_after_field_update_probes": 2000, "ctor_arg_aliasing_probes": 5000}
   if tier == "thorough":
     t = {k: v * 15 for k, v in t.items()}
   return t
@@ -200,6 +200,15 @@ def check_type(sh, shape, rng, case):
     if not isinstance(tb, Bits) or tb.nbits != total or int(tb.uint()) != exp:
       W("to_bits-layout", value=v, got=(getattr(tb, "nbits", None), hex(int(tb.uint()))), expected=hex(exp))
       continue
+    # the packed value is a NEW object: writing it does not write the struct (and the other way round)
+    sh.count("to_bits_result_aliasing_probes")
+    if any(tb is leaf_obj(o, pth) for (pth, lo, w_) in leaves):
+      W("to_bits-returns-a-field-object-of-the-struct", value=v)
+    else:
+      tb @= exp ^ R.mask(total)
+      if readback(shape, o) != v:
+        W("writing-the-to_bits-result-changes-the-struct", value=v)
+      tb @= exp
     # from_bits of packed
     fb = cls.from_bits(Bits(total, exp))
     sh.count("layout_comparisons")
@@ -298,6 +307,23 @@ def check_type(sh, shape, rng, case):
       bad = containers(shape, src, dst, ())
       if bad is not None and bad != ():
         W(how + "-aliases-container", path=bad)
+    # the constructor COPIES the values of its scalar (Bits) arguments: the struct must not share them with the caller (a caller
+    # typically passes the value object of a live signal); arguments that already have the exact field type included
+    args = {fn: B.val(f, v[fn]) for fn, f in shape[2]}
+    o2 = cls(**args)
+    for fn, f in shape[2]:
+      if not isinstance(f, int): continue
+      sh.count("ctor_arg_aliasing_probes")
+      fld = getattr(o2, fn)
+      old = int(args[fn].uint())
+      if fld is args[fn]:
+        W("constructor-keeps-the-argument-object-of-a-scalar-field", field=fn); break
+      args[fn] @= old ^ R.mask(f)
+      if int(getattr(o2, fn).uint()) != old:
+        W("argument-mutation-visible-in-constructed-struct", field=fn); break
+      fld @= old ^ 1
+      if int(args[fn].uint()) != old ^ R.mask(f):
+        W("struct-field-mutation-visible-in-constructor-argument", field=fn); break
     # hash / ==  after IN-PLACE updates of single leaves of an object that has already been hashed (a history: hash, update, hash)
     o = B.val(shape, v)
     try:
